@@ -1302,13 +1302,25 @@ pub fn check_c11(ix: &Ix<'_>, v: &mut Vec<Violation>) {
             // (A) fresh identifier: the request must be accepted
             match reqs[i].fate {
                 Fate::Handled(_) => {}
-                Fate::Refused(sq) => viol(
-                    v,
-                    "C11",
-                    format!("C11/free-id-refused/{role}/{}", kind.name()),
-                    format!("{} #{pid} ({}) was refused as id-in-use although every earlier exchange with that id had been acknowledged on the wire", kind.name(), reqs[i].tag),
-                    sq,
-                ),
+                Fate::Refused(sq) => {
+                    viol(
+                        v,
+                        "C11",
+                        format!("C11/free-id-refused/{role}/{}", kind.name()),
+                        format!("{} #{pid} ({}) was refused as id-in-use although every earlier exchange with that id had been acknowledged on the wire", kind.name(), reqs[i].tag),
+                        sq,
+                    );
+                    if kind.name().starts_with("PUBLISH") {
+                        // the same fact read as C03: a PUBLISH the endpoint had to accept never reached the handler
+                        viol(
+                            v,
+                            "C03",
+                            format!("C03/acceptable-publish-refused/{role}/{}", kind.name()),
+                            format!("{} #{pid} ({}) re-uses an identifier whose earlier exchange is complete; it was answered with id-in-use and its handler never ran", kind.name(), reqs[i].tag),
+                            sq,
+                        );
+                    }
+                }
                 Fate::Unknown => {
                     if settled && first_end.is_none() && reqs[i].delivered.is_some() && ix.fault("fin") + ix.fault("rst") == 0 {
                         viol(v, "C11", format!("C11/free-id-not-handled/{role}/{}", kind.name()), format!("{} #{pid} ({}) with a free id was neither handled nor refused", kind.name(), reqs[i].tag), ix.last_seq);
@@ -1384,6 +1396,10 @@ pub fn check_c11(ix: &Ix<'_>, v: &mut Vec<Violation>) {
                         && x.code != 0x92
                     {
                         viol(v, "C11", format!("C11/stray-pubrel-accepted/{role}"), format!("PUBREL #{} for an id that is not in use was answered with PUBCOMP 0x{:02x}", a.pid, x.code), e.seq);
+                        // C03: a success PUBCOMP is only written in answer to the PUBREL of an accepted QoS 2 publish
+                        if x.code == 0 {
+                            viol(v, "C03", format!("C03/pubcomp-without-accepted-publish/{role}"), format!("PUBCOMP #{} (success) although no accepted QoS 2 PUBLISH with that id was waiting for its PUBREL", a.pid), e.seq);
+                        }
                     }
                 }
                 None => {
